@@ -76,6 +76,9 @@ func (m *ModelServer) ListHails(_ context.Context, request *traits.ListHailsRequ
 	}
 
 	lastKey := pageToken.GetLastResourceName() // the key() of the last item we sent
+	if err := validatePageSize(request.GetPageSize()); err != nil {
+		return nil, err
+	}
 	pageSize := capPageSize(int(request.GetPageSize()))
 
 	sortedItems := m.model.ListHails(resource.WithReadMask(request.ReadMask))
